@@ -517,6 +517,90 @@ fn aim_noop(seed: u64, policy: &str) -> Script {
     live.script
 }
 
+/// A queue deleted and re-created inside one block (behind another frame of that block), then a
+/// batch with more records than the old incarnation held, in a later block: what is left if the
+/// block with the delete / re-create entries is quarantined.
+fn aim_recreate(seed: u64, policy: &str) -> Script {
+    let mut rng = Rng(seed ^ 0x17);
+    let queues = names(&mut rng, 2);
+    let mut live = Live::new(format!("aim-recreate-{seed}"), policy, queues, seed);
+    live.push(Step::Create { q: 0 });
+    live.push(Step::Create { q: 1 });
+    for _ in 0..1 + live.rng.below(2) {
+        let old = 1 + live.rng.below(5) as usize;
+        for _ in 0..old {
+            let len = live.rng.below(30) as usize;
+            let payload = live.payload(len);
+            live.push(Step::Append { q: 0, pos: None, batch: vec![payload] });
+        }
+        // move into the next block; its first frame is the tail of this filler
+        let len = BLOCK - 2000 + live.rng.below(4000) as usize;
+        let payload = live.payload(len);
+        live.push(Step::Append { q: 1, pos: None, batch: vec![payload] });
+        if live.rng.chance(50) {
+            let payload = live.payload(20);
+            live.push(Step::Append { q: 1, pos: None, batch: vec![payload] });
+        }
+        live.push(Step::Delete { q: 0 });
+        live.push(Step::Create { q: 0 });
+        // leave that block
+        let len = BLOCK + live.rng.below(3000) as usize;
+        let payload = live.payload(len);
+        live.push(Step::Append { q: 1, pos: None, batch: vec![payload] });
+        let fresh = old + 1 + live.rng.below(4) as usize;
+        let batch: Vec<Payload> = (0..fresh).map(|_| live.payload(9)).collect();
+        live.push(Step::Append { q: 0, pos: None, batch });
+        if live.rng.chance(30) {
+            live.push(Step::Restart);
+        }
+    }
+    live.script
+}
+
+/// The seam between two WAL files: a record appended when exactly 7*m (or 0..9) bytes are left in
+/// the file - its first frame (possibly empty) closes the file, the rest lies in the next one -
+/// is the only thing that keeps the old file alive; then two clean restarts.
+fn aim_seam(seed: u64, policy: &str) -> Script {
+    let mut rng = Rng(seed ^ 0x29);
+    let queues = names(&mut rng, 3);
+    let mut live = Live::new(format!("aim-seam-{seed}"), policy, queues, seed);
+    let (filler, keeper) = (0usize, 1usize);
+    live.push(Step::Create { q: filler });
+    live.push(Step::Create { q: keeper });
+    for _ in 0..1 + live.rng.below(2) {
+        let m = 1 + live.rng.below(3) as usize;
+        let gap = if live.rng.chance(70) { 7 * m } else { live.rng.below(24) as usize };
+        live.fill_to(filler, gap, true);
+        // a keeper record that needs m frames in the new file
+        let overhead = live.entry_overhead(keeper) + 12;
+        let frame = BLOCK - HDR;
+        let len = if m == 1 {
+            live.rng.below(2000) as usize
+        } else {
+            ((m - 1) * frame + 1 + live.rng.below(2000) as usize).saturating_sub(overhead)
+        };
+        if live.rng.chance(30) {
+            let batch = vec![live.payload(len / 2), live.payload(len - len / 2)];
+            live.push(Step::Append { q: keeper, pos: None, batch });
+        } else {
+            let payload = live.payload(len);
+            live.push(Step::Append { q: keeper, pos: None, batch: vec![payload] });
+        }
+        // nothing else retained in the old file
+        let last = live.last_position(filler).unwrap_or(0);
+        live.push(Step::Truncate { q: filler, p: last });
+        live.push(Step::Restart);
+        if live.rng.chance(60) {
+            let payload = live.payload(4);
+            live.push(Step::Append { q: keeper, pos: None, batch: vec![payload] });
+        }
+        live.push(Step::Restart);
+        let payload = live.payload(30);
+        live.push(Step::Append { q: filler, pos: None, batch: vec![payload] });
+    }
+    live.script
+}
+
 pub fn is_aimed(profile: &str) -> bool {
     profile.starts_with("aim-")
 }
@@ -530,6 +614,8 @@ pub fn generate(profile: &str, seed: u64, policy: &str) -> Script {
         "aim-block" => aim_block(seed, policy),
         "aim-pin" => aim_pin(seed, policy),
         "aim-noop" => aim_noop(seed, policy),
+        "aim-recreate" => aim_recreate(seed, policy),
+        "aim-seam" => aim_seam(seed, policy),
         other => panic!("unknown aimed profile {other}"),
     };
     mrecordlog::verif::take_events();
